@@ -44,9 +44,38 @@ func kdcProxyMessage(msg []byte, realm string, flags int) []byte {
 		in = append(in, tlv(0xA1, tlv(0x1B, []byte(realm)))...)
 	}
 	if flags >= 0 {
-		in = append(in, tlv(0xA2, tlv(0x02, []byte{byte(flags)}))...)
+		in = append(in, tlv(0xA2, tlv(0x02, derInt(int64(flags))))...)
 	}
 	return tlv(0x30, in)
+}
+
+// derInt gives the minimal two's-complement content octets of an INTEGER.
+func derInt(v int64) []byte {
+	n := 1
+	for ; n < 8; n++ {
+		if lo, hi := -(int64(1) << (8*uint(n) - 1)), (int64(1)<<(8*uint(n)-1))-1; v >= lo && v <= hi {
+			break
+		}
+	}
+	b := make([]byte, n)
+	for i := n - 1; i >= 0; i-- {
+		b[i] = byte(v)
+		v >>= 8
+	}
+	return b
+}
+
+// c20Hint draws a dclocator hint: absent, small, or one of the DsGetDcName flag values that need
+// more than one content octet (bit 31 and beyond).
+func c20Hint(rng interface{ Intn(int) int }) int {
+	switch rng.Intn(6) {
+	case 0:
+		return -1
+	case 1, 2:
+		return rng.Intn(4)
+	default:
+		return []int{127, 128, 255, 256, 0x7fff, 0x8000, 0x20000000, 0x7fffffff, 0x80000000, 0xC0000001, 0xffffffff, 1 << 40}[rng.Intn(12)]
+	}
 }
 
 // ---------------------------------------------------------------------------
@@ -311,7 +340,7 @@ func runC20(r *Run) {
 			b[rng.Intn(len(b))] ^= byte(1 << uint(rng.Intn(8)))
 			vcases = append(vcases, vcase{"POST", b, false, "bitflip"})
 		case 2:
-			m := kdcProxyMessage(randBytes(rng.Intn(300)), []string{"", "REALM.A", "X"}[rng.Intn(3)], rng.Intn(3)-1)
+			m := kdcProxyMessage(randBytes(rng.Intn(300)), []string{"", "REALM.A", "X"}[rng.Intn(3)], c20Hint(rng))
 			vcases = append(vcases, vcase{"POST", m[:rng.Intn(len(m))], false, "truncated"})
 		default:
 			// a well-formed message for an unknown realm: decodes, then 503
@@ -453,7 +482,7 @@ func runC20(r *Run) {
 				data = []byte{0, 0, 0, 3, 1, 2, 3}
 			}
 		}
-		body := kdcProxyMessage(data, realm, rng.Intn(4)-1)
+		body := kdcProxyMessage(data, realm, c20Hint(rng))
 		if len(body) > 131072 {
 			body = kdcProxyMessage(data[:1000], realm, -1)
 			data = data[:1000]
@@ -561,8 +590,68 @@ func runC20(r *Run) {
 			}
 		}()
 	}
+	c20Binary(r)
 	r.extra["model_disagreements"] = drift
 	if drift > 0 && !r.HasViolation() {
 		r.Unproven(fmt.Sprintf("correspondence Kdc.handler/decode = KerberosProxy.Handler broke on %d cases with no unfaithful or missing answer found", drift), first)
+	}
+}
+
+// c20Binary: the proxy as the real process serves it (main()'s http.Server around the handler): a
+// realm whose KDCs answer → 200 with the wrapped reply; a realm whose KDCs stay silent on TCP and
+// UDP → still an HTTP answer (503) once the proxy's own deadline has passed, not a dropped connection.
+func c20Binary(r *Run) {
+	if _, err := os.Stat(gwBinaryPath()); err != nil {
+		r.Note("gateway binary unavailable: binary tier skipped")
+		return
+	}
+	r.TierRan("binary")
+	dir := filepath.Join(verifRoot, "work", fmt.Sprintf("c20-%d", os.Getpid()))
+	os.MkdirAll(dir, 0o755)
+	defer os.RemoveAll(dir)
+	keytab, _ := writeKerberosFiles(dir)
+	replying := startFakeKDC(kdcBehaviour{kind: "reply", body: []byte("reply-from-the-binary-tier-kdc")}, kdcBehaviour{kind: "refuse"})
+	silent := startFakeKDC(kdcBehaviour{kind: "silent"}, kdcBehaviour{kind: "silent"})
+	defer replying.stop()
+	defer silent.stop()
+	conf := filepath.Join(dir, "krb5-c20.conf")
+	writeKrb5Conf(conf, map[string][]*fakeKDC{"REALM.A": {replying}, "SILENT.REALM": {silent}}, "REALM.A")
+	port := freePort()
+	ta := false
+	y := &gwYaml{port: port, tlsOn: false, auth: []string{"kerberos"}, hosts: []string{"10.0.0.1:3389"}, tokenAuth: &ta, keytab: keytab, krb5conf: conf}
+	p := startBinary(dir, y.render(), nil, port, false)
+	defer p.stop()
+	if !p.running() {
+		r.Note("binary did not start with kerberos authentication: " + tail(p.stderr.String(), 300))
+		return
+	}
+	post := func(realm string) (int, []byte, string, time.Duration) {
+		body := kdcProxyMessage([]byte{0, 0, 0, 3, 1, 2, 3}, realm, -1)
+		start := time.Now()
+		cl := &http.Client{Timeout: 15 * time.Second}
+		resp, err := cl.Post(fmt.Sprintf("http://127.0.0.1:%d/KdcProxy", port), "application/kerberos", bytes.NewReader(body))
+		if err != nil {
+			return 0, nil, err.Error(), time.Since(start)
+		}
+		defer resp.Body.Close()
+		b, _ := io.ReadAll(resp.Body)
+		return resp.StatusCode, b, "", time.Since(start)
+	}
+	st, b, e, d := post("REALM.A")
+	r.Count("binary:replying-realm")
+	want := kdcProxyMessage(append([]byte{0, 0, 0, byte(len(replying.tcp.body))}, replying.tcp.body...), "", -1)
+	if st != 200 || !bytes.Equal(b, want) {
+		r.Violation("c20-unfaithful", "the 200 body is not the reply of one of the realm's KDCs wrapped as a KDC-PROXY-MESSAGE with its 4-byte length prefix", fmt.Sprintf("real binary, realm with one answering KDC: status %d error %q body %s after %v\nexpected body %s\n", st, e, hx(b), d, hx(want)))
+	}
+	n := r.N(1, 3)
+	for i := 0; i < n; i++ {
+		st, _, e, d = post("SILENT.REALM")
+		r.Count(fmt.Sprintf("binary:silent-realm:%d", i))
+		r.Dist("binary:silent-realm")
+		if st == 0 {
+			r.Violation("c20-no-answer", "the KDC proxy did not answer (panic or no response within 12 s): "+e, fmt.Sprintf("real binary, POST /KdcProxy for a realm whose KDCs accept and stay silent on TCP and UDP: no HTTP response (%s) after %v; the proxy's own deadline is 5 s and a 503 is due then\n", e, d))
+		} else if st != 503 {
+			r.Violation("c20-status", "a request that no KDC answered did not get 503", fmt.Sprintf("real binary, silent realm: status %d after %v\n", st, d))
+		}
 	}
 }
